@@ -232,7 +232,8 @@ class Evaluate(Contract):
   """execution.evaluate: parse-with-the-effective-permission dominates every
   exec / eval / compile, for all 256 explicit permission values, with and
   without an enclosing scope.  Effective permission (statement): the explicit
-  argument when one is given, else the scope's."""
+  argument when one is given, else the scope's; an enclosing scope can only be
+  narrowed, so with both the effective set is their intersection."""
   prop = 'C19'
   target = 'pyglove.core.coding.execution:evaluate'
   raises = {errors.CodeError: (), Exception: ()}
@@ -262,7 +263,13 @@ class Evaluate(Contract):
     args, kwargs = parses[0].data
     used = interp.resolve(args[1] if len(args) > 1 else kwargs.get('permission'))
     explicit = interp.resolve(env['permission'])
-    eff = explicit if explicit is not None else interp.resolve(self._scope)
+    scope = interp.resolve(self._scope)
+    if explicit is None:
+      eff = scope
+    elif scope is None:
+      eff = explicit
+    else:
+      eff = SBits(explicit.z & scope.z, P)    # a scope can only be narrowed
     if eff is None or used is None:
       return eff is used
     return used.z == eff.z
@@ -272,6 +279,8 @@ class Evaluate(Contract):
     explicit = None if m.choices.get('perm_kind', 0) == 0 else P(m['permission'] or 0)
     scope = None if m.choices.get('scope_kind', 0) == 0 else P(m['scope_perm'] or 0)
     eff = explicit if explicit is not None else scope
+    if explicit is not None and scope is not None:
+      eff = explicit & scope
     # a program that needs ASSIGN and CALL; refused iff eff lacks one of them
     code = 'x = print\nx'
     sentinel = []
